@@ -22,6 +22,11 @@ def spec():
         "Detailed": obj(["id", "extra"], {"id": st, "extra": it, "note": st}),
         "Overlap": {"oneOf": [{"$ref": "#/components/schemas/Basic"}, {"$ref": "#/components/schemas/Detailed"}]},
         "OverlapRev": {"oneOf": [{"$ref": "#/components/schemas/Detailed"}, {"$ref": "#/components/schemas/Basic"}]},
+        # the same required-subset pair with wire names that differ from the python field names (camelCase, reserved word)
+        "Summary": obj(["id"], {"id": st, "class": st}),
+        "Full": obj(["id", "displayName"], {"id": st, "displayName": st, "isActive": {"type": "boolean"}, "class": st}),
+        "Card": {"oneOf": [{"$ref": "#/components/schemas/Summary"}, {"$ref": "#/components/schemas/Full"}]},
+        "CardRev": {"oneOf": [{"$ref": "#/components/schemas/Full"}, {"$ref": "#/components/schemas/Summary"}]},
         "OptA": obj([], {"x": it}),
         "OptB": obj([], {"y": it}),
         "AllOpt": {"anyOf": [{"$ref": "#/components/schemas/OptA"}, {"$ref": "#/components/schemas/OptB"}]},
